@@ -234,7 +234,9 @@ func c08Run(w *harness.World, base sdk.Context, cs c08Case, st *c08Stats, report
 		var oo harness.Outcome
 		o, oo = w.ExecMsg(c1, vtypes.NewMsgSendToVestingAccount(A.String(), harness.AddrS("R2"), "p", sdk.OneInt(), true), harness.ExecOpts{})
 		if oo.Class != harness.OK {
-			panic("c08: prior send failed: " + oo.Log)
+			// an ordinary send (1 <= remainder, new recipient, pool still locked) that is refused
+			report("send-outcome", fmt.Sprintf("the preparatory send of 1 out of a fresh pool holding %s was refused: %s (%s)", rem, oo.Key(), firstLine(oo.Log)))
+			return
 		}
 		c1, prior = o, sdk.OneInt()
 	}
